@@ -13,6 +13,7 @@
              delivery log with the stream of a single tracer subscribed to the union expanded in stack order. *)
 From Coq Require Import List ZArith NArith Bool Arith Sorted.
 Import ListNotations.
+From PyccoloV Require model.RwFrag model.FragSem proofs.FragSemProofs.
 From PyccoloV Require Import gen.PyAst gen.Ids gen.Events gen.EmitRet model.Val model.Rt model.Tree model.Erase model.Prune
   proofs.RtProofs proofs.DeliverProofs proofs.EraseSound proofs.PruneSound.
 
@@ -59,3 +60,17 @@ Example C05_nonvacuous :
   stack_calls 0 ex_stack (RUser 7 false) = [(0, 0, RUser 7 false); (1, 0, RUser 7 false); (1, 2, RUser 7 false)]
   /\ filter (fun c => c_ti c =? 1) (stack_calls 0 ex_stack (RUser 7 false)) = stack_calls 1 [tr [hobs true; hobs false; hobs true]] (RUser 7 false).
 Proof. vm_compute. split; reflexivity. Qed.
+
+(* the stack as a statement about EVALUATION on the fragment (model/FragSem.v): a program instrumented for a stack of observing tracers
+   is instrumented for the union of their subscriptions; what tracer i is delivered (the emissions of its events, in order, with value
+   and node) is what it is delivered when it is the only tracer - for all primitive operations, stacks, source modules, environments *)
+Definition union_cfg (cs : list RwFrag.rcfg) : RwFrag.rcfg := {| RwFrag.sub := fun e => existsb (fun c => RwFrag.sub c e) cs |}.
+Theorem C05_frag_stack : forall binop cmpop unop truth cval is_and (cs : list RwFrag.rcfg) (c : RwFrag.rcfg) body r sv sv',
+  In c cs -> forallb FragSemProofs.src_s body = true ->
+  FragSem.filter_log c (FragSem.s_log (FragSem.exec_l binop cmpop unop truth cval is_and (FragSem.instr_module (union_cfg cs) body) r sv)) =
+  FragSem.filter_log c (FragSem.s_log (FragSem.exec_l binop cmpop unop truth cval is_and (FragSem.instr_module c body) r sv')).
+Proof.
+  intros binop cmpop unop truth cval is_and cs c body r sv sv' Hin Hs.
+  apply FragSemProofs.frag_projection; [exact Hs|]. intros e He. cbn. apply existsb_exists. exists c. split; assumption.
+Qed.
+Print Assumptions C05_frag_stack.
